@@ -63,6 +63,19 @@ pub fn schema_number(src: &mut Src) -> J {
 }
 
 pub fn schema_string(src: &mut Src) -> String {
+    if src.chance(12) {
+        // long strings (length thresholds, multi-byte content)
+        let n = src.size(300);
+        let unit = *src.pick(&["a", "ab", "é", "😀", "日本", "a b", "x'y"]);
+        let mut s = String::new();
+        while s.chars().count() < n {
+            s.push_str(unit);
+            if src.chance(20) {
+                s.push(crate::gen_doc::gen_char(src));
+            }
+        }
+        return s;
+    }
     if src.chance(170) {
         src.pick(&["a", "b", "ab", "ba", "", "é", "z", "A", "😀", "日本", "a b", "1", "-2.5", "true", "[1]", "1e2", "e\u{301}"]).to_string()
     } else {
@@ -71,19 +84,21 @@ pub fn schema_string(src: &mut Src) -> String {
 }
 
 fn num_array(src: &mut Src, max: usize) -> J {
-    let n = match src.weighted(&[2, 8, 3]) {
+    let n = match src.weighted(&[2, 8, 3, 1]) {
         0 => 0,
         1 => src.below(8),
-        _ => 21 + src.below(max.saturating_sub(20).max(1)),
+        2 => 21 + src.below(max.saturating_sub(20).max(1)),
+        _ => src.size(max * 7),
     };
     J::Arr((0..n).map(|_| schema_number(src)).collect())
 }
 
 fn str_array(src: &mut Src, max: usize) -> J {
-    let n = match src.weighted(&[2, 8, 3]) {
+    let n = match src.weighted(&[2, 8, 3, 1]) {
         0 => 0,
         1 => src.below(8),
-        _ => 21 + src.below(max.saturating_sub(20).max(1)),
+        2 => 21 + src.below(max.saturating_sub(20).max(1)),
+        _ => src.size(max * 7),
     };
     J::Arr((0..n).map(|_| J::Str(schema_string(src))).collect())
 }
@@ -93,10 +108,11 @@ pub fn schema_doc(src: &mut Src) -> J {
     m.insert("nums".to_string(), num_array(src, 40));
     m.insert("strs".to_string(), str_array(src, 40));
     // objs: unique id, key k with duplicates (numbers or strings, consistently)
-    let n = match src.weighted(&[2, 8, 3]) {
+    let n = match src.weighted(&[2, 8, 3, 1]) {
         0 => 0,
         1 => src.below(7),
-        _ => 21 + src.below(20),
+        2 => 21 + src.below(20),
+        _ => src.size(140),
     };
     let k_is_num = src.flip();
     let mut objs = vec![];
